@@ -7,6 +7,7 @@ import (
 	"net"
 	"os"
 	"regexp"
+	"slices"
 	"strings"
 	"time"
 
@@ -1483,19 +1484,58 @@ func redact(s *string) {
 	}
 }
 
+// deepCopy returns a copy of the TLS settings that shares no memory with t.
+func (t TLSConfig) deepCopy() TLSConfig {
+	t.MTLS = cloneBoolPtr(t.MTLS)
+	t.Strict = cloneBoolPtr(t.Strict)
+	return t
+}
+
+// cloneBoolPtr returns a pointer to a copy of *p, or nil if p is nil.
+func cloneBoolPtr(p *bool) *bool {
+	if p == nil {
+		return nil
+	}
+	v := *p
+	return &v
+}
+
+// deepCopy returns a copy of the config that shares no memory with c.
+// The copy is structural, so unlike a marshal/unmarshal round-trip it cannot
+// fail, whatever the field values are.
+func (c *Config) deepCopy() *Config {
+	cp := *c
+
+	cp.Listeners = slices.Clone(c.Listeners)
+	for i := range cp.Listeners {
+		cp.Listeners[i].TLS = cp.Listeners[i].TLS.deepCopy()
+	}
+	cp.Peers = slices.Clone(c.Peers)
+	for i := range cp.Peers {
+		cp.Peers[i].TLS = cp.Peers[i].TLS.deepCopy()
+	}
+	cp.SOCKS5.Auth.Users = slices.Clone(c.SOCKS5.Auth.Users)
+	cp.Exit.Routes = slices.Clone(c.Exit.Routes)
+	cp.Exit.DomainRoutes = slices.Clone(c.Exit.DomainRoutes)
+	cp.Exit.DNS.Servers = slices.Clone(c.Exit.DNS.Servers)
+	cp.HTTP.Pprof = cloneBoolPtr(c.HTTP.Pprof)
+	cp.HTTP.Dashboard = cloneBoolPtr(c.HTTP.Dashboard)
+	cp.HTTP.RemoteAPI = cloneBoolPtr(c.HTTP.RemoteAPI)
+	cp.FileTransfer.AllowedPaths = slices.Clone(c.FileTransfer.AllowedPaths)
+	cp.Shell.Whitelist = slices.Clone(c.Shell.Whitelist)
+	cp.Forward.Endpoints = slices.Clone(c.Forward.Endpoints)
+	cp.Forward.Listeners = slices.Clone(c.Forward.Listeners)
+
+	return &cp
+}
+
 // Redacted returns a copy of the config with sensitive values redacted.
 // This is safe to log or display to users.
 func (c *Config) Redacted() *Config {
-	// Create a deep copy by marshaling and unmarshaling
-	data, err := yaml.Marshal(c)
-	if err != nil {
-		return c
-	}
-
-	redacted := &Config{}
-	if err := yaml.Unmarshal(data, redacted); err != nil {
-		return c
-	}
+	// The copy must not be made by marshaling and unmarshaling: yaml.v3 cannot
+	// re-read its own output for some strings (e.g. "\t\ttab\n\n"), and falling
+	// back to the original on such an error would expose every secret.
+	redacted := c.deepCopy()
 
 	// Redact global TLS key
 	redact(&redacted.TLS.Key)
